@@ -12,8 +12,9 @@ import json, os, re, sys, zlib
 
 VERIF = os.path.dirname(os.path.dirname(os.path.abspath(__file__)))
 REPO = os.environ.get("VERIF_REPO", "/repo")
-MODEL = os.path.join(VERIF, "lean", "CstModel", "Model", "Rs.lean")
-OUT = os.path.join(VERIF, "lean", "CstModel", "Generated", "RsFns.lean")
+LEAN = os.environ.get("VERIF_LEAN_DIR", os.path.join(VERIF, "lean"))
+MODEL = os.path.join(LEAN, "CstModel", "Model", "Rs.lean")
+OUT = os.path.join(LEAN, "CstModel", "Generated", "RsFns.lean")
 
 # (lean name, file, impl type, trait or None, fn name)
 TARGETS = [
@@ -37,6 +38,14 @@ TARGETS = [
     ("tok_resolve_text", "cstree/src/syntax/token.rs", "SyntaxToken", None, "resolve_text"),
     ("tok_write_debug", "cstree/src/syntax/token.rs", "SyntaxToken", None, "write_debug"),
     ("tok_text_range", "cstree/src/syntax/token.rs", "SyntaxToken", None, "text_range"),
+    ("b_token", "cstree/src/green/builder.rs", "GreenNodeBuilder", None, "token"),
+    ("b_static_token", "cstree/src/green/builder.rs", "GreenNodeBuilder", None, "static_token"),
+    ("b_start_node", "cstree/src/green/builder.rs", "GreenNodeBuilder", None, "start_node"),
+    ("b_finish_node", "cstree/src/green/builder.rs", "GreenNodeBuilder", None, "finish_node"),
+    ("b_checkpoint", "cstree/src/green/builder.rs", "GreenNodeBuilder", None, "checkpoint"),
+    ("b_revert_to", "cstree/src/green/builder.rs", "GreenNodeBuilder", None, "revert_to"),
+    ("b_start_node_at", "cstree/src/green/builder.rs", "GreenNodeBuilder", None, "start_node_at"),
+    ("b_finish", "cstree/src/green/builder.rs", "GreenNodeBuilder", None, "finish"),
 ]
 
 
@@ -245,6 +254,7 @@ class Parser:
         self.next_id = 1
         self.unknown_names = []
         self.has_self = False
+        self.no_struct = 0
         for p in params:
             if p == "self":
                 self.scopes[0]["self"] = 0; self.has_self = True
@@ -350,7 +360,24 @@ class Parser:
                     if self.at(","): self.i += 1
                 self.eat(")")
                 return f"(.ctor {self.name(self.path_key(segs))} [{', '.join(ps)}])"
-            if self.at("{"): raise Unsupported("struct pattern")
+            if self.at("{"):
+                self.i += 1
+                fps = []
+                while not self.at("}"):
+                    if self.at(".."):
+                        self.i += 1; continue
+                    while self.at_id("ref") or self.at_id("mut"): self.i += 1
+                    if self.peek()[0] != "id": raise Unsupported("struct pattern field")
+                    f = self.peek()[1]; self.i += 1
+                    if self.at(":"):
+                        self.i += 1
+                        fp = self.pattern()
+                    else:
+                        fp = f"(.bind {self.bind(f)})"
+                    fps.append(f"({self.name('field.' + f)}, {fp})")
+                    if self.at(","): self.i += 1
+                self.eat("}")
+                return f"(.strct [{', '.join(fps)}])"
             if self.at("@"): raise Unsupported("@ pattern")
             if is_ctor:
                 return f"(.ctor {self.name(self.path_key(segs))} [])"
@@ -404,7 +431,7 @@ class Parser:
         self.eat("(")
         out = []
         while not self.at(")"):
-            out.append(self.expr())
+            out.append(self.nested(self.expr))
             if self.at(","): self.i += 1
         self.eat(")")
         return out
@@ -446,6 +473,9 @@ class Parser:
                 return e
 
     def block(self):
+        return self.nested(self.block_)
+
+    def block_(self):
         """`{ stmts; expr? }` -> (.block [stmts] result)"""
         self.eat("{")
         self.scopes.append({})
@@ -534,7 +564,7 @@ class Parser:
             self.i += 1; return f"(.bool {v})"
         if v == "match":
             self.i += 1
-            s = self.expr()
+            s = self.cond()
             self.eat("{")
             arms = []
             while not self.at("}"):
@@ -565,7 +595,7 @@ class Parser:
                     if kk == "p" and vv in ")>]": depth -= 1
                     j += 1
                 self.i = j + 1
-                s = self.expr()
+                s = self.cond()
                 end = self.i
                 self.scopes.append({})
                 self.i = save
@@ -575,7 +605,7 @@ class Parser:
                 self.scopes.pop()
                 e = self.else_part()
                 return f"(.iflet {p} {s} {t} {e})"
-            c = self.expr()
+            c = self.cond()
             t = self.block()
             e = self.else_part()
             return f"(.ite {c} {t} {e})"
@@ -585,10 +615,14 @@ class Parser:
             if self.peek()[0] != "id": raise Unsupported("for pattern")
             x = self.peek()[1]; self.i += 1
             self.eat_id("in")
+            self.no_struct += 1
             lo = self.binary(0)
-            if not self.at(".."): raise Unsupported("for over a non-range")
+            if not self.at(".."):
+                self.no_struct -= 1
+                raise Unsupported("for over a non-range")
             self.i += 1
             hi = self.binary(0)
+            self.no_struct -= 1
             xid = self.bind(x)
             body = self.block()
             self.scopes.pop()
@@ -599,7 +633,7 @@ class Parser:
         if v == "while":
             self.i += 1
             if self.at_id("let"): raise Unsupported("while let")
-            c = self.expr()
+            c = self.cond()
             b = self.block()
             return f"(.loop (.ite {c} {b} .brk))"
         if v == "break":
@@ -624,8 +658,23 @@ class Parser:
             return f"(.mac {self.name(v)} [{', '.join(a)}])"
         # path: variable, constructor, function
         segs = self.path()
-        if self.at("{") and segs[0][0].isupper() and False:
-            raise Unsupported("struct literal")
+        if self.at("{") and segs[-1][0].isupper() and not self.no_struct:
+            self.i += 1
+            fes = []
+            while not self.at("}"):
+                if self.at(".."): raise Unsupported("struct update syntax")
+                if self.peek()[0] != "id": raise Unsupported("struct literal field")
+                f = self.peek()[1]; self.i += 1
+                if self.at(":"):
+                    self.i += 1
+                    fe = self.expr()
+                else:
+                    if self.lookup(f) is None: raise Unsupported("shorthand field of an unbound name")
+                    fe = f"(.var {self.lookup(f)})"
+                fes.append(f"({self.name('field.' + f)}, {fe})")
+                if self.at(","): self.i += 1
+            self.eat("}")
+            return f"(.mkStrct [{', '.join(fes)}])"
         if len(segs) == 1 and self.lookup(segs[0]) is not None:
             return f"(.var {self.lookup(segs[0])})"
         key = self.path_key(segs)
@@ -638,6 +687,22 @@ class Parser:
         if is_ctor:
             return f"(.ctor {self.name(key)} [])"
         raise Unsupported(f"free name {'::'.join(segs)}")
+
+    def cond(self):
+        """an expression in a position where `Name {` does not start a struct literal"""
+        self.no_struct += 1
+        try:
+            return self.expr()
+        finally:
+            self.no_struct -= 1
+
+    def nested(self, f):
+        """inside brackets the restriction is lifted"""
+        save, self.no_struct = self.no_struct, 0
+        try:
+            return f()
+        finally:
+            self.no_struct = save
 
     def else_part(self):
         if not self.at_id("else"): return ".unit"
